@@ -5,11 +5,12 @@ from . import checks, core
 
 
 def all_checks():
-    from . import hchecks, lchecks, cchecks
+    from . import hchecks, lchecks, cchecks, imagechecks
     d = dict(checks.CHECKS)
     d.update(hchecks.HCHECKS)
     d.update(lchecks.LCHECKS)
     d.update(cchecks.CCHECKS)
+    d.update(imagechecks.ICHECKS)
     return d
 
 
